@@ -72,6 +72,11 @@ def scenarios(tier):
         sc.append(f"batch {d} 0 ilfd 2 3 40 {mode}")
         sc.append(f"read {d} 0 ilfd 2 3 40 {mode}")
     sc.append(f"batch {d} 0 ild 1 1 1000 mmap")
+    # BYTE_ARRAY columns with many small pages read by ONE read_batch call / one batch per row group: the values of
+    # the finished pages must stay valid until the call has returned; every returned pointer is dereferenced afterwards
+    for codec, mode in ((0, "fread"), (1, "fread"), (1, "mmap"), (6, "buffer"), (0, "mmap")):
+        sc.append(f"readbig {d} {codec} bBi 1 30 8 {mode}")
+        sc.append(f"batchbig {d} {codec} bBi 1 30 8 {mode}")
     # enough column chunks for the writer's and the reader's metadata arena to need a second block
     sc.append(f"write {d} 0 iLdiLdiLdiLd 20 1 3 abort")
     for codec in CODECS:
@@ -217,7 +222,7 @@ def run_all(rep, tier, rng, drv, ext=False):
     for s, o in zip(scs, cout):
         kv = parse_rec(o)
         if o.startswith("OK") and kv.get("ok") == "1" and kv.get("rb") == "0":
-            rep.violation(f"fault-free run of scenario '{short(s)}': every call reports success but the file does not read back to the "
+            rep.violation(f"fault-free run of scenario '{short(s)}': every call reports success but the file / the values read are not the "
                           f"intended table", {"case": "count " + s})
             continue
         if not o.startswith("OK") or kv.get("ok") != "1" or kv.get("exit") != "0" or kv.get("leak") != "0":
